@@ -389,8 +389,8 @@ fn settings(r: &mut Sm, k: usize) -> Vec<Setting> {
 pub fn run(tier: Tier, seed: u64) -> i32 {
     let ctx = Ctx::new("C14", tier, seed, "exploration");
     let mut r = Sm::derive(seed, &[14]);
-    let st = settings(&mut r, tier.pick(2, 6));
-    let n = tier.pick(200_000, 2_000_000);
+    let st = settings(&mut r, tier.pick(2, 8));
+    let n = tier.pick(200_000, 5_000_000);
     par_shards(st.len(), crate::util::n_threads(), |i| {
         check_setting(&ctx, &st[i], seed.wrapping_mul(1000003).wrapping_add(i as u64 + 1), n);
     });
